@@ -143,6 +143,14 @@ def runAuthz (j : Json) : P Json := do
       | .exprError _ => [("r", "exec")]
     pure (Json.mkObj (base ++ extra ++ (if amb then [("amb", Json.bool true)] else [])))
 
+def runAtten (j : Json) : P Json := do
+  let base ← runAuthz j
+  let blocks ← getArr (← field j "blocks")
+  let ext ← field j "extension"
+  let j' := j.setObjVal! "blocks" (Json.arr (blocks ++ [ext]).toArray)
+  let e ← runAuthz j'
+  pure (Json.mkObj [("base", base), ("ext", e)])
+
 def handle (line : String) : String :=
   match Json.parse line with
   | .error e => (Json.mkObj [("driver_error", s!"parse: {e}")]).compress
@@ -153,6 +161,7 @@ def handle (line : String) : String :=
       | "expr" => runExpr j
       | "engine" => runEngine j
       | "authz" => runAuthz j
+      | "atten" => runAtten j
       | _ => throw s!"unknown op {op}"
     match r with
     | .ok o => o.compress
